@@ -59,16 +59,16 @@ def _case(draw):
         group = "unordered"
         case["_chain"] = True
     elif group == "plain":
-        case = draw(gen.rec_case(max_obj=10, max_sp=8, costs="free", labelled=False))
+        case = draw(gen.rec_case(max_obj=10, max_sp=8, costs="free", labelled=False, misleading=True))
     elif group == "ordered":
-        case = draw(gen.rec_case(max_obj=8, max_sp=6, costs="free", labelled=True, max_fam=4, prescribed_root=True))
+        case = draw(gen.rec_case(max_obj=8, max_sp=6, costs="free", labelled=True, max_fam=4, prescribed_root=True, misleading=True))
     elif group == "unordered":
-        case = draw(gen.rec_case(max_obj=10, max_sp=8, costs="free", labelled=True, max_fam=5, allow_inconsistent=False))
+        case = draw(gen.rec_case(max_obj=10, max_sp=8, costs="free", labelled=True, max_fam=5, allow_inconsistent=False, misleading=True))
     else:
         op, sp = draw(st.sampled_from([(1, 0), (0, 1), (2, 0), (1, 1)]))
         case = draw(gen.rec_case(max_obj=6, max_sp=5, min_obj=3, min_sp=1, costs="free", labelled=True, max_fam=3,
                                  prescribed_root=(group == "poly_ordered"), prescribed_odds=(1, 2), obj_poly=op, sp_poly=sp,
-                                 allow_inconsistent=(group == "poly_ordered")))
+                                 allow_inconsistent=(group == "poly_ordered"), misleading=True))
     if gen.chance(draw, 1, 4) and "leaf_syntenies" in case:
         case["costs"] = dict(case["costs"], SEGMENTAL_LOSS=0)
     case["_group"] = group
@@ -78,6 +78,11 @@ def _case(draw):
     # ancestors of both trees without names, handed to the labelled solvers through the Python API (they name the nodes
     # themselves); the solutions are then validated against the trees they refer to
     case["_unnamed"] = gen.chance(draw, 1, 4)
+    # species names that differ only in case, or that are prefixes of one another (the leaf assignment is explicit here)
+    spelling = draw(st.sampled_from([None, None, None, "case-twins", "prefix-nested"]))
+    if spelling:
+        case = gen.respell_species(case, spelling)
+        case["_spelling"] = spelling
     return case
 
 
